@@ -50,6 +50,31 @@ def r15_5(chk, fn, g, muts):
                     nd.line, A.callee_name(bad[0][1]), bad[0][0].line, name), {'definition': nd.line, 'intervening_mutation': bad[0][0].line}, fn['q'])
     chk.require(k >= 3, 'R15.5: only %d definite_path definitions found in apply_patch' % k)
 
+def r15_6(chk, facts):
+    """The unwinder rolls back in every state except commit (an exception leaves the state at begin)."""
+    from .. import peval as P
+    chk.rule('R15.6', 'rollback condition: ~operation_unwinder replays the undo log for every state_type value except commit (an exception or an '
+                      'early return leaves the state at begin, an error return sets abort); decided by evaluating the destructor for each enumerator', floor=3)
+    dts = [f for f in facts.functions if f.get('fk') == 'CXXDestructor' and 'operation_unwinder' in f['q'] and not f.get('dep') and f.get('body') is not None]
+    chk.require(dts, '~operation_unwinder not found')
+    en = U.enum_by_suffix(facts, 'jsonpatch::detail::state_type')
+    names = U.enum_value_names(en)
+    chk.require('commit' in names.values() and len(names) >= 3, 'state_type enumerators not found: %s' % names)
+    for fn in U.one_per_inst(dts)[:1]:
+        chk.analysed(fn)
+        for sv, sname in sorted(names.items()):
+            pe = P.PEval(facts, fn, max_depth=0)
+            try:
+                pe.exec_stmt(fn['body'], {('m', 'state'): sv}, (), 0)
+            except P.Stop:
+                chk.broken('R15.6: effect budget exhausted')
+            replays = [e for e in pe.effects if e.kind == 'call' and e.name.split('::')[-1] in ('add', 'remove', 'replace') and e.args and e.args[0] == 'target']
+            site = U.site(fn, 'state %s' % sname)
+            want = sname != 'commit'
+            if bool(replays) == want: chk.ok('R15.6', site, {'state': sname, 'replays_log': bool(replays)})
+            else: chk.fail('R15.6', site, fn['file'], fn['l'], '~operation_unwinder %s the undo log when state == %s; every state except commit must roll back (after an exception the state is still begin)' % (
+                'replays' if replays else 'does not replay', sname), {'state': sname}, fn['q'])
+
 def run(chk, tier, only_rule=None):
     chk.explanation = EXPLANATION
     chk.not_decided = NOT_DECIDED
@@ -167,6 +192,7 @@ def run(chk, tier, only_rule=None):
             rets = any(x.kind == 'return' for x in region)
             if stores and rets: chk.ok('R15.3', site, {'final_else_line': last[1].succ[0].line if last[1].succ else None, 'ops_compared': len(opconds)})
             else: chk.fail('R15.3', site, fn['file'], last[0].line, 'an operation whose "op" matches none of the %d names is skipped without an error (no final else that stores ec and returns)' % len(opconds), None, fn['q'])
+    r15_6(chk, facts)
     # R15.4
     dts = [f for f in facts.functions if f.get('fk') == 'CXXDestructor' and 'operation_unwinder' in f['q'] and not f.get('dep') and f.get('body') is not None]
     chk.require(dts, '~operation_unwinder not found')
